@@ -301,7 +301,7 @@ class Model:
     def alias(self, m: MTable, new_id: str, name: str | None, keep: bool) -> MTable:
         nm = name if name is not None else m.name
         if keep:
-            return m.child(new_id, "alias_keep", name=nm, n_alias=m.n_alias + 1)
+            return m.child(new_id, "alias_keep", name=nm, n_alias=m.n_alias + 1, same_as=m.id if not m.hidden() else None)
         mp, lin_map = self._fresh(m, new_id, m.scope)
         res = m.child(
             new_id,
@@ -327,9 +327,10 @@ class Model:
                 new_id,
                 "collect",
                 scope=list(vis_toks),
-                grouping=list(m.grouping),
+                grouping=[t for t in m.grouping if t in set(vis_toks)],  # only visible columns are kept
                 opaque=frozenset(t for t in m.opaque if t in set(vis_toks)),
                 rowid=m.rowid if (m.rowid is not None and all(t in set(vis_toks) for t in m.rowid)) else None,
+                same_as=m.id,
             )
             return res
         mp, lin_map = self._fresh(m, new_id, vis_toks)
